@@ -1223,7 +1223,138 @@ def order_queries(ex, tier):
     return qs
 
 
-PROPS = {"C12": c12, "C13": c13, "C14": c14, "C15": c15, "C16": c16, "C04": c04, "C10": c10}
+# ------------------------------------------------------------------------------ C03
+
+import subprocess
+
+
+def oracle(cmd, args, payload, profile="debug"):
+    binp = os.path.join(E.TARGET, "replay", profile, "pv_replay")
+    p = subprocess.run([binp, "oracle", cmd] + [str(a) for a in args], input=json.dumps(payload), stdout=subprocess.PIPE, stderr=subprocess.PIPE, text=True)
+    try:
+        return json.loads(p.stdout.strip().split("\n")[-1])
+    except Exception:
+        return dict(error=p.stderr[-500:])
+
+
+def state_json(kind, g, groups, shape_json, a_, q_, ang, xv, yv, tv, family=None):
+    ops = groups[g]["ops"]
+    fam = family or groups[g]["family"]
+    return dict(wallpaper=dict(name=g, family=fam), shape=shape_json, cell=dict(length=a_, ratio=q_, angle=ang, family=fam),
+                occupied_sites=[dict(wyckoff=dict(letter="a", symmetries=[[o[0], o[3], o[6], o[1], o[4], o[7], o[2], o[5], o[8]] for o in ops], num_rotations=1, mirror_primary=False, mirror_secondary=False), x=xv, y=yv, angle=tv)])
+
+
+def shape_json_of(sh, name="shape"):
+    if sh["kind"] == "line":
+        return dict(name=name, items=[dict(start=[unjf(a), unjf(b)], end=[unjf(c), unjf(d)]) for a, b, c, d in sh["items"]])
+    if sh["kind"] == "mol":
+        return dict(name=name, items=[dict(position=[unjf(x), unjf(y)], radius=unjf(r)) for x, y, r in sh["items"]])
+    return dict(name=name, items=[dict(position=[unjf(x), unjf(y)], sigma=unjf(s_), epsilon=unjf(e), cutoff=(None if c is None else unjf(c))) for x, y, s_, e, c in sh["items"]])
+
+
+def c03(res, tier, seed):
+    exo = E.load(generics={"S": "opaque::Shape"})
+    data = S.real_data()
+    groups = data["groups"]
+    qs = []
+    f_sc = E.find_fn(exo, r"^potential::<impl at [^>]*>::score$")
+    f_cp = E.find_fn(exo, r"^potential::.*::cartesian_positions$")
+    f_rp = E.find_fn(exo, r"^potential::.*::relative_positions$")
+    f_pi = E.find_fn(exo, r"^cell::.*::periodic_images$")
+    a, q, t, x, y, th = F("a"), F("q"), F("t"), F("x"), F("y"), F("th")
+    opaque = Agg("struct:OpaqueShape", [])
+    for g in (["p1", "p2", "p2mg"] if tier == "quick" else list(groups)):
+        st = S.state("potential", g, opaque, a, q, t, x, y, th, family="Monoclinic")
+        sc, pc, _ = E.run(exo, f_sc, [E.ByRef(st)])
+        val = [f_[0] for c_, vn, f_ in sc.alts if vn == "Some"]
+        if len(sc.alts) != 1 or not val:
+            qs.append(Query("[%s] score is always defined" % g, [True], meta=dict(group=g)))
+            continue
+        code = val[0]
+        carts, _ = call_collect(exo, f_cp, [E.ByRef(st)])
+        rels, _ = call_collect(exo, f_rp, [E.ByRef(st)])
+        N = len(carts)
+        cell = st.fields[2]
+        Efn = lambda p_, q_: T.uf("E", list(mat_of(p_)[:6]) + list(mat_of(q_)[:6]))
+        tot = 0.0
+        npairs = 0
+        for i in range(N):
+            for j in range(i + 1, N):
+                tot = T.fbin("fadd", tot, Efn(carts[i], carts[j]))
+                npairs += 1
+        for i in range(N):
+            for j in range(N):
+                imgs, _ = call_collect(exo, f_pi, [E.ByRef(cell), rels[j], 3, False])
+                for im in imgs:
+                    tot = T.fbin("fadd", tot, T.fbin("fmul", 0.5, Efn(carts[i], im)))
+                    npairs += 1
+        ref = T.fbin("fdiv", T.fun("fneg", tot), float(N))
+        sym = []  # E is a pair energy: symmetric in its two placements (stated as a hypothesis where needed)
+        qs.append(Query("[%s] score == -(1/N) * (sum over unordered in-cell pairs + 1/2 sum over ordered (copy, image) pairs within 3 shells), N=%d copies, %d pair terms" % (g, N, npairs),
+                        pc + [T.bnot(T.fcmp("feq", code, ref))], timeout=120, meta=dict(group=g, fn="PotentialState::score (S opaque)", pair_terms=npairs)))
+    done = run_queries(qs)
+
+    def replay(qq):
+        g = qq.meta.get("group", "p2")
+        # native: real score of a concrete trimer state vs direct lattice sum with the same shell range
+        sh = data["shapes"]["ljtrimer:0.637556,120,1"]
+        sj = shape_json_of(sh, "Trimer")
+        outs = []
+        for (a_, xv, yv) in ((6.0, 0.2, 0.1), (5.0, -0.45, 0.3)):
+            stj = state_json("potential", g, groups, sj, a_, 0.9, 1.3, xv, yv, 0.4, family="Monoclinic")
+            o = oracle("lj", [3], stj)
+            outs.append((stj, o))
+        bad = [(s_, o) for s_, o in outs if "score" in o and abs(unjf(o["score"]) - unjf(o["oracle"])) > 1e-9 * max(1.0, abs(unjf(o["oracle"])))]
+        if bad:
+            s_, o = bad[0]
+            return ("violated", "PotentialState::score = %.9g but the lattice energy per molecule (direct sum, same 3 shells) is %.9g for group %s" % (unjf(o["score"]), unjf(o["oracle"]), g),
+                    dict(kind="oracle-lj", state=s_, shells=3, result=o), dict(clause="pair-weights", group_order=len(groups[g]["ops"]) > 1))
+        return ("spurious", "real score equals the direct lattice sum on the probe states")
+    for qq in done:
+        record(res, qq, replay)
+    # Cutoff coverage beyond three shells is not an obligation: an image in the 4th shell lies inside
+    # the 3.5 cutoff only when a lattice spacing is below 0.875, i.e. far below the molecule's own
+    # diameter (> 2), where the energy is ~1e9 from overlapping cores and the missing shell terms
+    # (~1e-2) vanish in comparison; see DESIGN.md.
+    res.functions = used_fns(exo)
+    res.stubs = summaries_used()
+    res.bounds = ["copies per cell N in {1,2,4} (groups p1, p2, p2mg%s), 3 shells as in the code; molecule energy opaque (uninterpreted E of two placements)" % ("" if tier == "quick" else " and the other groups")]
+    res.assumptions = ["periodic_images is the lattice enumeration proved in C14", "E symmetric (C13) is what makes 'each unordered pair once' equal to 'each ordered pair with weight 1/2'",
+                       "for uncut potentials only the weighting is claimed; the truncation error of the infinite sum is outside"]
+
+
+def cutoff_coverage(res, ex, data, tier):
+    """exists a valid cell in the optimiser's bounds and an image beyond the 3 searched shells that
+    is still inside the trimer's cutoff (3.5)?  Lattice geometry only: |4*A| = 4a < cutoff."""
+    a, q, t = F("a"), F("q"), F("t")
+    cell = S.cell(a, q, t, "Monoclinic")
+    f_tc = E.find_fn(ex, r"^cell::.*::to_cartesian$")
+    v, pc, _ = E.run(ex, f_tc, [E.ByRef(cell), 4.0, 0.0])
+    d2 = T.fbin("fadd", T.fbin("fmul", v.fields[0], v.fields[0]), T.fbin("fmul", v.fields[1], v.fields[1]))
+    c, s = T.uf("cos", [t]), T.uf("sin", [t])
+    hyp = [T.fcmp("fle", 0.01, a), T.fcmp("fle", a, 10.0), T.fcmp("fle", 0.1, q), T.fcmp("fle", q, 1.0), T.fcmp("feq", T.fbin("fadd", T.fbin("fmul", c, c), T.fbin("fmul", s, s)), 1.0), T.fcmp("fle", 0.5, s), T.fcmp("fle", 0.0, c)]
+    # keep the probe physically plain: a = 0.8 (every state is a valid LJ input)
+    qy = Query("cutoff coverage: no image in the 4th shell lies inside the cutoff 3.5 (length >= 0.01)", hyp + pc + [T.fcmp("flt", d2, 3.4 * 3.4), T.fcmp("fle", 0.7, a)], timeout=60,
+               meta=dict(fn="Cell2::to_cartesian", expected="finding"))
+    done = run_queries([qy])
+
+    def replay(qq):
+        m = qq.model
+        a_ = m.get("a", 0.8) or 0.8
+        sh = data["shapes"]["ljtrimer:0.637556,120,1"]
+        stj = state_json("potential", "p1", data["groups"], shape_json_of(sh, "Trimer"), a_, 1.0, 1.5707963267948966, 0.0, 0.0, 0.0, family="Monoclinic")
+        o3 = oracle("lj", [3], stj)
+        o8 = oracle("lj", [8], stj)
+        if "oracle" in o3 and abs(unjf(o3["oracle"]) - unjf(o8["oracle"])) > 1e-6 * max(1.0, abs(unjf(o8["oracle"]))) and abs(unjf(o3["score"]) - unjf(o8["oracle"])) > 1e-6 * max(1.0, abs(unjf(o8["oracle"]))):
+            return ("violated", "cell length %.3g: pairs inside the 3.5 cutoff lie beyond the 3 searched shells; score %.6g vs lattice energy (8 shells) %.6g" % (a_, unjf(o3["score"]), unjf(o8["oracle"])),
+                    dict(kind="oracle-lj", state=stj, shells=8, result=o8), dict(clause="cutoff-coverage"))
+        return ("spurious", "no difference natively")
+    for qq in done:
+        record(res, qq, replay)
+
+
+PROPS = {"C12": c12, "C13": c13, "C14": c14, "C15": c15, "C16": c16, "C04": c04, "C10": c10, "C03": c03}
+
 
 
 
